@@ -253,3 +253,13 @@ pub fn boxcar_canary() {
     std::mem::forget(v);
     assert!(!got);
 }
+
+/// an iterator that yields MORE than it reported must be caught (panic) before anything is written
+/// outside the reserved index range.  Contract: this call panics.  (#[kani::should_panic])
+pub fn vec_extend_overreport_panics<const REPORTED: usize>() {
+    let v: Vec<u32> = Vec::with_capacity(0, 1);
+    let items: [u32; 3] = kani::any();
+    v.extend(Liar { reported: REPORTED, actual: REPORTED + 1, items, next: 0 }, fill_from);
+    // not reached when the contract holds
+    std::mem::forget(v);
+}
